@@ -182,7 +182,7 @@ def run_writer_check(pid, tier, groups, bset=REAL_B, assumptions=(), level="mode
                     seq = core.history_of(seq, base, shards=1)
                     break
             if not hit:
-                unrepro.append(tid)
+                unrepro.append((tid, rj["event"].get("e")))
                 continue
             violations.append(core.save_replay(pid, "writer", dict(id=base, batch=seq), hit[0]["trace"],
                                                "event %d not explained by WSWriter (only after the %d programs that ran before it in the same process): %s" % (
@@ -191,8 +191,14 @@ def run_writer_check(pid, tier, groups, bset=REAL_B, assumptions=(), level="mode
         rj2 = r2["rejections"][0]
         path = core.save_replay(pid, "writer", prog, rj2["trace"], "event %d not explained by WSWriter: %s" % (rj2["index"], json.dumps(rj2["event"])[:600]))
         violations.append(path)
-    if unrepro and not violations:
-        raise core.Infra("rejection of %s did not reproduce (alone, and three times with its history)" % ", ".join(unrepro[:3]))
+    # a watchdog expiry that never reproduces (alone, and three times with its history) is CPU starvation of the driver,
+    # not behaviour of the library: a real hang is deterministic in these single-goroutine programs
+    starved = [t for t, e in unrepro if e == "HANG"]
+    other = [t for t, e in unrepro if e != "HANG"]
+    for t in starved:
+        log("[%s] watchdog expiry of %s did not reproduce: ignored (driver starved of CPU)" % (pid, t))
+    if other and not violations:
+        raise core.Infra("rejection of %s did not reproduce (alone, and three times with its history)" % ", ".join(other[:3]))
     distinct = len({key_of(p) for p in progs})
     samples = [dict(program={k: conc[i][k] for k in conc[i] if k != "id"}) for i in (0, len(conc) // 2, len(conc) - 1)]
     cov = dict(states=states, transitions=trans, traces_validated_against_impl=res["traces"],
